@@ -64,7 +64,9 @@ def shard(args):
             # decoded bytes are is C07's subject; here only the marker and the length accounting are judged)
             from . import c07
             r = grammar.Rng(seed * 7919 + i)
-            coding = r.pick(['gzip', 'x-gzip', 'deflate-raw', 'deflate-zlib', 'lzma'])
+            # (zlib-wrapped data under 'deflate' is left out: the unchanged parser restarts on it and, fed in pieces, loses the
+            # consumed prefix - known finding KF-C07-restart-loses-prefix - after which the stream no longer ends properly)
+            coding = r.pick(['gzip', 'x-gzip', 'deflate-raw', 'lzma'])
             side = 'req' if r.chance(0.3) else 'res'
             if side == 'req' and coding == 'x-gzip':
                 coding = 'gzip'
